@@ -1,5 +1,6 @@
 //! C12 — subjects used from several threads neither lose, duplicate nor reorder.
 use crate::tcommon::*;
+use another_rxrust::prelude::*;
 use another_rxrust::vstd::thread;
 use rxverif_rt::exec::ExecEnd;
 use rxverif_rt::explore::{Body, Check, Verdict};
@@ -216,6 +217,68 @@ fn first_occurrences(v: &[i64]) -> Vec<i64> {
   out
 }
 
+#[derive(Clone, Copy, Debug, PartialEq)]
+enum Fold {
+  Scan,
+  Reduce,
+  Sum,
+  Count,
+  SumAndCount,
+}
+
+/// a resident observer attached through an operator that folds the items (two producers, then complete):
+/// "receives every item exactly once" read through the fold - every pushed item is accounted for exactly
+/// once in what the observer ends up with
+fn folded_scn(kind: SubjKind, fold: Fold, q: Option<u32>, t: Option<u32>) -> Scn {
+  let name = format!("c12/{:?} P[1, 2]||P[30, 40] then complete, obs[Resident through {:?}]", kind, fold);
+  let family = format!("{:?}-subject-folded", kind).to_lowercase();
+  scn(&name, &family, q, t, move || {
+    let rec = Rec::new();
+    let rec2 = rec.clone();
+    let body: Body = Box::new(move || {
+      let sbj = AnySubject::new(kind);
+      let o = sbj.observable();
+      let o: Observable<'static, i64> = match fold {
+        Fold::Scan => o.scan(|(a, b)| a + b),
+        Fold::Reduce => o.reduce(|(a, b)| a + b),
+        Fold::Sum => o.sum(),
+        Fold::Count => o.count().map(|n| n as i64),
+        Fold::SumAndCount => o.sum_and_count().map(|(s, n)| s * 1000 + n as i64),
+      };
+      let _sub = rec2.sub_i64(&o);
+      let s2 = sbj.clone();
+      let h = thread::spawn(move || {
+        s2.next(30);
+        s2.next(40);
+      });
+      sbj.next(1);
+      sbj.next(2);
+      let _ = h.join();
+      sbj.complete();
+    });
+    let check: Check = Box::new(move |e: &ExecEnd| {
+      let mut v = base_violations(e, &[]);
+      let got = rec.items();
+      // a BehaviorSubject hands its initial value 0 to the subscriber first: one more item, sum unchanged
+      let n_items: i64 = if kind == SubjKind::Behavior { 5 } else { 4 };
+      let total = 73i64;
+      let ok = match fold {
+        // (the running results may be *delivered* in another order than they were folded in: scan does not
+        // hold its lock while it calls downstream; the largest one is the fold of everything)
+        Fold::Scan => got.len() as i64 == n_items && got.iter().max() == Some(&total),
+        Fold::Reduce | Fold::Sum => got == vec![total],
+        Fold::Count => got == vec![n_items],
+        Fold::SumAndCount => got == vec![total * 1000 + n_items],
+      };
+      if !ok {
+        v.push(viol("item-not-accounted-for-exactly-once", format!("the observer behind {:?} ended up with {:?}; pushed 1, 2, 30, 40 (sum 73, {} items)", fold, got, n_items)));
+      }
+      Verdict { outcome: rec.short(), violations: v }
+    });
+    (body, check)
+  })
+}
+
 pub fn scenarios() -> Vec<Scn> {
   let mut v = vec![];
   for k in [SubjKind::Plain, SubjKind::Behavior, SubjKind::Replay] {
@@ -235,6 +298,11 @@ pub fn scenarios() -> Vec<Scn> {
     v.push(subj_scn(k, vec![vec![1, 2], vec![3, 4]], vec![Role::Late], None, Some(3)));
     v.push(subj_scn(k, vec![vec![1, 2], vec![3, 4]], vec![Role::Late, Role::Leaving], Some(1), Some(2)));
     v.push(subj_scn(k, vec![vec![1, 2, 3]], vec![Role::Late], None, Some(3)));
+    // the observer attached through an operator that folds what it gets
+    for f in [Fold::Scan, Fold::Reduce, Fold::Sum, Fold::Count, Fold::SumAndCount] {
+      let quick = k == SubjKind::Plain || f == Fold::Scan;
+      v.push(folded_scn(k, f, if quick { Some(2) } else { None }, Some(3)));
+    }
   }
   v
 }
